@@ -34,6 +34,7 @@ type c19Case struct {
 	Path      bool
 	BeforeErr string // "" | name of the operation whose before-request call fails
 	URLQuery  bool   // the configured server URL carries a query string (e.g. an API key)
+	TermFails int    // the server refuses the session DELETE with this status: the session lives on, and so does the client's use of it
 	Factory   bool   // the request handler is installed by replacing the package's handler factory (mcp.NewHTTPReqHandler) instead of by option
 	Reopen    bool   // after the history the client is closed and used again (Close, Initialize, requests, terminate)
 	Split     bool   // the static headers are configured through two WithHTTPHeaders options (with another option in between) instead of one
@@ -55,6 +56,13 @@ func c19Cases(tier string) []c19Case {
 				c5 := c
 				c5.Split = true
 				out = append(out, c5)
+			}
+			if cl != "ls" && (mask == 0 || mask == 2 || mask == 15) {
+				for _, st := range []int{405, 500} {
+					c8 := c
+					c8.TermFails = st
+					out = append(out, c8)
+				}
 			}
 			if c.Handler && (mask == 4 || mask == 15) {
 				c7 := c
@@ -87,7 +95,7 @@ func c19Cases(tier string) []c19Case {
 
 func c19Eval(tier string, i int) CaseResult {
 	cs := c19Cases(tier)[i]
-	cr := CaseResult{Desc: fmt.Sprintf("client=%s static=%v before=%v handler=%v path=%v beforeErr=%q firstInit=%d urlQuery=%v split=%v", cs.Client, cs.Static, cs.Before, cs.Handler, cs.Path, cs.BeforeErr, cs.FirstInit, cs.URLQuery, cs.Split) + map[bool]string{true: " reopen", false: ""}[cs.Reopen] + map[bool]string{true: " handler-by-factory", false: ""}[cs.Factory], Nontrivial: true}
+	cr := CaseResult{Desc: fmt.Sprintf("client=%s static=%v before=%v handler=%v path=%v beforeErr=%q firstInit=%d urlQuery=%v split=%v", cs.Client, cs.Static, cs.Before, cs.Handler, cs.Path, cs.BeforeErr, cs.FirstInit, cs.URLQuery, cs.Split) + map[bool]string{true: " reopen", false: ""}[cs.Reopen] + map[bool]string{true: " handler-by-factory", false: ""}[cs.Factory] + map[bool]string{true: fmt.Sprintf(" delete-refused-%d", cs.TermFails), false: ""}[cs.TermFails != 0], Nontrivial: true}
 	var viol []explore.Violation
 	obs := &hx.Log{}
 	k := func(s string) string { return fmt.Sprintf("%s:%s", s, cs.Client) }
@@ -102,6 +110,7 @@ func c19Eval(tier string, i int) CaseResult {
 		if cs.URLQuery {
 			ss.urlSuffix = "?api_key=k1&x=a%20b"
 		}
+		ss.deleteStatus = cs.TermFails
 		if cs.FirstInit != 0 {
 			refused := false
 			ss.initHook = func(w scriptWriter, id string) bool {
@@ -240,8 +249,20 @@ func c19Eval(tier string, i int) CaseResult {
 				return e
 			}})
 			do(step{"rootschanged", func() error { return cl.SendRootsListChangedNotification(tok("rootschanged")) }})
-			if sc, ok := cl.(mcp.SessionClient); ok && cs.Client != "ls" {
+			if sc, ok := cl.(mcp.SessionClient); ok && cs.Client != "ls" && cs.TermFails == 0 {
 				do(step{"terminate", func() error { return sc.TerminateSession(tok("terminate")) }})
+			}
+			if sc, ok := cl.(mcp.SessionClient); ok && cs.Client != "ls" && cs.TermFails != 0 && !failed {
+				// the server refuses to end the session: the operation fails, the session and the client's use of it go on
+				d := &hx.Flag{}
+				var terr error
+				vsched.Go("op-terminate-refused", func() { terr = sc.TerminateSession(tok("terminate")); d.Set() })
+				vsched.Quiesce()
+				if d.Get() && terr == nil {
+					viol = append(viol, V(k("terminate-refused-but-ok"), "the server answered the session DELETE with %d but TerminateSession returned nil", cs.TermFails))
+				}
+				do(step{"listtools", func() error { _, e := cl.ListTools(tok("listtools"), &mcp.ListToolsRequest{}); return e }})
+				do(step{"rootschanged", func() error { return cl.SendRootsListChangedNotification(tok("rootschanged")) }})
 			}
 			if cs.Reopen && !failed {
 				// a second life of the same client object: everything configured still applies
